@@ -249,6 +249,7 @@ Qed.
 Theorem run_cq_eq_run n t input : n <> 0 -> t <> 0 -> run_cq n t input = Multi.run input.
 Proof.
   intros Hn Ht. unfold run_cq, Multi.run. destruct input as [|seed [|nl r]]; try reflexivity.
+  destruct (nl =? 0); [reflexivity|].
   destruct (take_lp (skipn (7 * N.to_nat (N.max 1 (N.min nl 3))) r)) as [tb r1]. destruct (take_lp r1) as [ob r2].
   cbv zeta.
   match goal with |- context [cmsteps ?i ?tx ?mt ?bs ?k (cminit ?bs n t ?o)] =>
